@@ -43,8 +43,8 @@ impl MemoryAreas {
         rom.push(0xff);
       }
     }
-    let mut work_ram = Vec::<u8>::with_capacity(0x1000);
-    for _ in 0..0x1000 {
+    let mut work_ram = Vec::<u8>::with_capacity(0x2000);
+    for _ in 0..0x2000 {
       work_ram.push(0);
     }
     let mut video_ram = Vec::<u8>::with_capacity(0x2000);
